@@ -3,6 +3,9 @@ import sys, os, subprocess
 sys.path.insert(0, os.path.dirname(os.path.abspath(__file__)))
 from mutants import M
 REPO = '/repo'
+import fcntl
+_lock = open('/tmp/verif-repo.lock', 'w')
+fcntl.flock(_lock, fcntl.LOCK_EX)   # one user of /repo's working tree at a time
 sel = sys.argv[1] if len(sys.argv) > 1 else ''
 res = []
 for (name, prop, f, old, new, rule) in M:
